@@ -45,7 +45,20 @@ def seg_api(job):
         return 'exc ' + vlib.exc_name(e)
 
 
-CALLS = {'seg': impl.seg, 'msg': impl.msg_full, 'fld': impl.fld, 'comp': impl.comp, 'build': impl.ecrun, 'factory': factory_call, 'add_sub': add_sub, 'seg_api': seg_api}
+def const_ec(job):
+    """the library's own constant hl7apy.DEFAULT_ENCODING_CHARS passed explicitly (the test suite's spelling of "standard delimiters")"""
+    import hl7apy
+    from hl7apy.parser import parse_segment
+    v, text, strict = job
+    ec = hl7apy.DEFAULT_ENCODING_CHARS
+    try:
+        s = parse_segment(text, version=v, encoding_chars=ec, validation_level=vlib.level(strict))
+        return 'ok %s %s' % (vlib.hexs(s.to_er7(ec)), ''.join(ec[k] for k in ('FIELD', 'COMPONENT', 'SUBCOMPONENT', 'REPETITION', 'ESCAPE')))
+    except Exception as e:  # noqa
+        return 'exc ' + vlib.exc_name(e)
+
+
+CALLS = {'const_ec': const_ec, 'seg': impl.seg, 'msg': impl.msg_full, 'fld': impl.fld, 'comp': impl.comp, 'build': impl.ecrun, 'factory': factory_call, 'add_sub': add_sub, 'seg_api': seg_api}
 
 
 def call(c):
@@ -97,6 +110,8 @@ def corpus(rng, n):
         else:
             name = rng.choice(sorted(x for x in g.lib.SEGMENTS if x not in ('MSH', 'ANYHL7SEGMENT')))
             out.append(('seg', (v, name + '|' + long_text, strict, DEF)))
+        if i % 25 == 0:
+            out.append(('const_ec', (v, 'PID|1||123^^^HOSP&1.2.3&ISO~456||DOE^JOHN', False)))
     # components / fields whose datatype is a base datatype in some versions only (DTM, TN, CM, SNM, IS, TM, WD, GTS, ...):
     # is_base_datatype(dt) without the explicit version would then follow the *default* version
     import hl7apy
@@ -123,6 +138,7 @@ def under(job):
     from hl7apy.consts import VALIDATION_LEVEL as VL
     (dv, dstrict, dec), calls = job
     old = (hl7apy._DEFAULT_VERSION, hl7apy._DEFAULT_VALIDATION_LEVEL, hl7apy._DEFAULT_ENCODING_CHARS)
+    old_content = dict(old[2])
     try:
         hl7apy.set_default_version(dv)
         hl7apy.set_default_validation_level(VL.STRICT if dstrict else VL.TOLERANT)
@@ -131,6 +147,9 @@ def under(job):
         return [call(c) for c in calls]
     finally:
         hl7apy._DEFAULT_VERSION, hl7apy._DEFAULT_VALIDATION_LEVEL, hl7apy._DEFAULT_ENCODING_CHARS = old
+        if old[2] != old_content:          # (a setter that rewrote the shared dict in place: put the content back for the next job of this worker)
+            old[2].clear()
+            old[2].update(old_content)
 
 
 def existing_under(job):
